@@ -41,23 +41,29 @@ impl Progress {
 }
 
 /// Run `f(slot, index)` for every index in 0..n on `threads` workers (dynamic chunked scheduling)
+#[track_caller]
 pub fn par_for<F: Fn(usize, u64) + Sync>(threads: usize, n: u64, chunk: u64, f: F) {
     let next = AtomicU64::new(0);
     let chunk = chunk.max(1);
+    let loc = std::panic::Location::caller();
     std::thread::scope(|s| {
         for slot in 0..threads {
             let next = &next;
             let f = &f;
             std::thread::Builder::new()
                 .stack_size(64 << 20)
-                .spawn_scoped(s, move || loop {
-                    let st = next.fetch_add(chunk, Ordering::Relaxed);
-                    if st >= n {
-                        break;
-                    }
-                    let en = (st + chunk).min(n);
-                    for i in st..en {
-                        f(slot, i);
+                .spawn_scoped(s, move || {
+                    let iw = ItemGuard::new(loc);
+                    loop {
+                        let st = next.fetch_add(chunk, Ordering::Relaxed);
+                        if st >= n {
+                            break;
+                        }
+                        let en = (st + chunk).min(n);
+                        for i in st..en {
+                            iw.begin(i);
+                            f(slot, i);
+                        }
                     }
                 })
                 .expect("spawn");
@@ -66,20 +72,26 @@ pub fn par_for<F: Fn(usize, u64) + Sync>(threads: usize, n: u64, chunk: u64, f: 
 }
 
 /// Run `f(slot, &item)` over a slice in parallel
+#[track_caller]
 pub fn par_each<T: Sync, F: Fn(usize, usize, &T) + Sync>(threads: usize, items: &[T], f: F) {
     let next = AtomicUsize::new(0);
+    let loc = std::panic::Location::caller();
     std::thread::scope(|s| {
         for slot in 0..threads {
             let next = &next;
             let f = &f;
             std::thread::Builder::new()
                 .stack_size(64 << 20)
-                .spawn_scoped(s, move || loop {
-                    let i = next.fetch_add(1, Ordering::Relaxed);
-                    if i >= items.len() {
-                        break;
+                .spawn_scoped(s, move || {
+                    let iw = ItemGuard::new(loc);
+                    loop {
+                        let i = next.fetch_add(1, Ordering::Relaxed);
+                        if i >= items.len() {
+                            break;
+                        }
+                        iw.begin(i as u64);
+                        f(slot, i, &items[i]);
                     }
-                    f(slot, i, &items[i]);
                 })
                 .expect("spawn");
         }
@@ -162,3 +174,183 @@ impl Rng {
         }
     }
 }
+
+// ---------------------------------------------------------------------------------------------
+// Call watch: a hang guard for checks whose workers do not carry a case id. Every call into rivia
+// is wrapped in `watched`, which records a short description of the call in the calling thread's
+// slot; the watchdog reports the description of a call that has not returned within the limit.
+// ---------------------------------------------------------------------------------------------
+struct CwSlot {
+    busy: AtomicBool,
+    tick: AtomicU64,
+    desc: std::sync::Mutex<String>,
+}
+
+static CW: std::sync::OnceLock<Vec<CwSlot>> = std::sync::OnceLock::new();
+static CW_NEXT: AtomicUsize = AtomicUsize::new(0);
+thread_local! {
+    static CW_SLOT: std::cell::Cell<usize> = const { std::cell::Cell::new(usize::MAX) };
+}
+
+fn cw_slots() -> &'static Vec<CwSlot> {
+    CW.get_or_init(|| (0..MAX_SLOTS).map(|_| CwSlot { busy: AtomicBool::new(false), tick: AtomicU64::new(0), desc: std::sync::Mutex::new(String::new()) }).collect())
+}
+
+struct CwBusy(&'static CwSlot);
+impl Drop for CwBusy {
+    fn drop(&mut self) {
+        self.0.busy.store(false, Ordering::Release);
+    }
+}
+
+/// run `f` (a call into rivia) under the call watch; `desc` writes what is being called
+pub fn watched<T>(desc: impl FnOnce(&mut String), f: impl FnOnce() -> T) -> T {
+    let slots = cw_slots();
+    let i = CW_SLOT.with(|c| {
+        if c.get() == usize::MAX {
+            c.set(CW_NEXT.fetch_add(1, Ordering::Relaxed) % MAX_SLOTS);
+        }
+        c.get()
+    });
+    let s = &slots[i];
+    {
+        let mut d = s.desc.lock().unwrap_or_else(|e| e.into_inner());
+        d.clear();
+        desc(&mut d);
+    }
+    s.tick.fetch_add(1, Ordering::Relaxed);
+    s.busy.store(true, Ordering::Release);
+    let _g = CwBusy(s);
+    f()
+}
+
+/// `on_hang(description)` is expected to report and end the process
+pub fn start_call_watchdog<F: Fn(String) + Send + 'static>(limit: Duration, on_hang: F) -> Arc<AtomicBool> {
+    let stop = Arc::new(AtomicBool::new(false));
+    let stop2 = stop.clone();
+    std::thread::spawn(move || {
+        let slots = cw_slots();
+        let mut last: Vec<(u64, Instant)> = (0..MAX_SLOTS).map(|_| (u64::MAX, Instant::now())).collect();
+        while !stop2.load(Ordering::Relaxed) {
+            std::thread::sleep(Duration::from_millis(250));
+            for (i, s) in slots.iter().enumerate() {
+                if !s.busy.load(Ordering::Acquire) {
+                    last[i] = (u64::MAX, Instant::now());
+                    continue;
+                }
+                let t = s.tick.load(Ordering::Relaxed);
+                if last[i].0 != t {
+                    last[i] = (t, Instant::now());
+                } else if last[i].1.elapsed() > limit {
+                    let d = s.desc.lock().unwrap_or_else(|e| e.into_inner()).clone();
+                    on_hang(d);
+                    last[i] = (u64::MAX, Instant::now());
+                }
+            }
+        }
+    });
+    stop
+}
+
+
+// ---------------------------------------------------------------------------------------------
+// Item watch: the coarse safety net under every par_for / par_each loop. A work item that does not
+// finish within the limit (items take milliseconds to seconds) is reported as a hang by the handler
+// installed with `set_stall_handler`; checks with their own per-call watchdogs fire much earlier.
+// ---------------------------------------------------------------------------------------------
+struct ItemSlot {
+    busy: AtomicBool,
+    tick: AtomicU64,
+    idx: AtomicU64,
+    loc: std::sync::Mutex<Option<&'static std::panic::Location<'static>>>,
+}
+
+static ITEM_SLOTS: std::sync::OnceLock<Vec<ItemSlot>> = std::sync::OnceLock::new();
+static ITEM_FREE: std::sync::Mutex<Vec<usize>> = std::sync::Mutex::new(Vec::new());
+static ITEM_WD_STARTED: AtomicBool = AtomicBool::new(false);
+static STALL_HANDLER: std::sync::OnceLock<Box<dyn Fn(String) + Send + Sync>> = std::sync::OnceLock::new();
+
+/// the handler is expected to report the stall and end the process
+pub fn set_stall_handler<F: Fn(String) + Send + Sync + 'static>(f: F) {
+    let _ = STALL_HANDLER.set(Box::new(f));
+}
+
+pub fn stall_limit() -> Duration {
+    Duration::from_secs(std::env::var("VERIF_STALL_LIMIT_S").ok().and_then(|x| x.parse().ok()).unwrap_or(300))
+}
+
+fn item_slots() -> &'static Vec<ItemSlot> {
+    ITEM_SLOTS.get_or_init(|| {
+        let mut free = ITEM_FREE.lock().unwrap();
+        *free = (0..1024).rev().collect();
+        (0..1024).map(|_| ItemSlot { busy: AtomicBool::new(false), tick: AtomicU64::new(0), idx: AtomicU64::new(0), loc: std::sync::Mutex::new(None) }).collect()
+    })
+}
+
+struct ItemGuard {
+    slot: Option<usize>,
+}
+
+impl ItemGuard {
+    fn new(loc: &'static std::panic::Location<'static>) -> ItemGuard {
+        let slots = item_slots();
+        let slot = ITEM_FREE.lock().unwrap_or_else(|e| e.into_inner()).pop();
+        if let Some(i) = slot {
+            *slots[i].loc.lock().unwrap_or_else(|e| e.into_inner()) = Some(loc);
+        }
+        if !ITEM_WD_STARTED.swap(true, Ordering::SeqCst) {
+            std::thread::spawn(|| {
+                let slots = item_slots();
+                let limit = stall_limit();
+                let mut last: Vec<(u64, Instant)> = (0..slots.len()).map(|_| (u64::MAX, Instant::now())).collect();
+                loop {
+                    std::thread::sleep(Duration::from_secs(1));
+                    for (i, s) in slots.iter().enumerate() {
+                        if !s.busy.load(Ordering::Acquire) {
+                            last[i] = (u64::MAX, Instant::now());
+                            continue;
+                        }
+                        let t = s.tick.load(Ordering::Relaxed);
+                        if last[i].0 != t {
+                            last[i] = (t, Instant::now());
+                        } else if last[i].1.elapsed() > limit {
+                            let loc = s.loc.lock().unwrap_or_else(|e| e.into_inner()).map(|l| format!("{}:{}", l.file(), l.line())).unwrap_or_default();
+                            let msg = format!("work item {} of the loop at {} has not finished after {} s", s.idx.load(Ordering::Relaxed), loc, limit.as_secs());
+                            match STALL_HANDLER.get() {
+                                Some(h) => h(msg),
+                                None => {
+                                    eprintln!("machinery: {}", msg);
+                                    std::process::exit(2);
+                                },
+                            }
+                            last[i] = (u64::MAX, Instant::now());
+                        }
+                    }
+                }
+            });
+        }
+        ItemGuard { slot }
+    }
+    #[inline]
+    fn begin(&self, idx: u64) {
+        if let Some(i) = self.slot {
+            let s = &item_slots()[i];
+            s.idx.store(idx, Ordering::Relaxed);
+            s.tick.fetch_add(1, Ordering::Relaxed);
+            s.busy.store(true, Ordering::Release);
+        }
+    }
+}
+
+impl Drop for ItemGuard {
+    fn drop(&mut self) {
+        if let Some(i) = self.slot {
+            item_slots()[i].busy.store(false, Ordering::Release);
+            ITEM_FREE.lock().unwrap_or_else(|e| e.into_inner()).push(i);
+        }
+    }
+}
+
+/// heartbeat of single-threaded worker processes (bumped by WorkerCtx::mine / count / vio)
+pub static WORKER_BEAT: AtomicU64 = AtomicU64::new(0);
+pub static WORKER_UNIT: AtomicU64 = AtomicU64::new(0);
